@@ -38,11 +38,22 @@ class BestSizes(Contract):
         for signed in (None, True, False):
             for case in ('int_frac_given', 'int_word_given'):
                 yield dict(signed=signed, f=3, shape=[], case=case, bits=6)
+        # the same reconciliation through like= / resize() with a reference of the OPPOSITE signedness
+        for signed in (True, False):
+            for case in ('like_int_frac', 'like_int_word', 'resize_int_frac', 'resize_int_word'):
+                yield dict(signed=signed, f=3, shape=[], case=case, bits=6)
+        # raw integer codes with only n_frac given, by every container
+        for signed in (None, True, False):
+            for car in ('list', 'tuple', 'arr', 'pyint'):
+                for gf in (2, 0, 5):
+                    yield dict(signed=signed, f=0, shape=[2] if car != 'pyint' else [], case='raw_frac_given', bits=6, carrier=car, given_frac=gf)
 
     def inputs(self, cfg, D):
         n = nelem(cfg['shape'])
         lim = (1 << cfg['bits']) - 1
         lo = -lim if cfg['signed'] is not False else 0
+        if cfg['case'] == 'raw_frac_given':
+            return {'k': [D.int('k%d' % i, lo, lim) for i in range(n)]}
         return {'k': [D.dyadic('k%d' % i, cfg['f'], lo, lim) for i in range(n)]}
 
     def given(self, cfg):
@@ -51,14 +62,26 @@ class BestSizes(Contract):
         if c == 'free': return {}
         if c == 'frac_given': return {'n_frac': max(f - 1, 0)}
         if c == 'word_given': return {'n_word': cfg['bits'] // 2 + 2}
-        if c == 'int_frac_given': return {'n_int': 4, 'n_frac': 2}
-        if c == 'int_word_given': return {'n_int': 4, 'n_word': 9}
+        if c in ('int_frac_given', 'like_int_frac', 'resize_int_frac'): return {'n_int': 4, 'n_frac': 2}
+        if c in ('int_word_given', 'like_int_word', 'resize_int_word'): return {'n_int': 4, 'n_word': 9}
+        if c == 'raw_frac_given': return {'n_frac': cfg['given_frac']}
 
     def run(self, cfg, P, inp):
         vals = inp['k']
         val = vals[0] if cfg['shape'] == [] else P.arr(vals, dtype='float64', shape=tuple(cfg['shape']))
         kw = self.given(cfg)
-        x = P.Fxp(val, cfg['signed'], **kw)
+        case = cfg['case']
+        if case.startswith('like_'):
+            ref = P.Fxp(None, not cfg['signed'], 12, 3)
+            x = P.Fxp(val, signed=cfg['signed'], like=ref, **kw)
+        elif case.startswith('resize_'):
+            x = P.Fxp(None, not cfg['signed'], 12, 3)
+            x.resize(signed=cfg['signed'], **kw)
+        elif case == 'raw_frac_given':
+            car = {'list': lambda: list(vals), 'tuple': lambda: tuple(vals), 'arr': lambda: P.arr(vals, dtype='int64', shape=(2,)), 'pyint': lambda: vals[0]}[cfg['carrier']]()
+            x = P.Fxp(car, cfg['signed'], raw=True, **kw)
+        else:
+            x = P.Fxp(val, cfg['signed'], **kw)
         o = obs_fxp(x)
         o['getval'] = x.get_val()
         return o
@@ -75,6 +98,8 @@ class BestSizes(Contract):
         if not (isinstance(W, int) and isinstance(F, int)):
             return out
         vs = [M(v) for v in inp['k']]
+        if cfg['case'] == 'raw_frac_given':
+            vs = [scale2(v, -cfg['given_frac']) for v in vs]        # raw codes: the values are code * 2^-n_frac
         codes = [M(c) for c in elems(obs['val'])]
         lo, hi = range_of(S, W)
         st = obs['status']
@@ -83,6 +108,9 @@ class BestSizes(Contract):
         n_int = W - F - s
         case = cfg['case']
         gv = self.given(cfg)
+        if case == 'raw_frac_given':
+            out['raw_codes_stored'] = And(*[eq(c, M(k)) for c, k in zip(codes, inp['k'])])
+            case = 'frac_given'
         if case in ('free', 'frac_given'):
             out['exact'] = exact if case == 'free' else True
             out['no_flags'] = And(Not(B(st['overflow'])), Not(B(st['underflow'])), Implies(exact_at(F), Not(B(st['inaccuracy']))))
